@@ -326,6 +326,16 @@ func hasCmp(p *pred) bool {
 	return hasCmp(p.L) || hasCmp(p.R) || hasCmp(p.P)
 }
 
+func hasBool(p *pred) bool {
+	if p == nil {
+		return false
+	}
+	if p.K == "bool" {
+		return true
+	}
+	return hasBool(p.L) || hasBool(p.R) || hasBool(p.P)
+}
+
 func predKinds(p *pred, into map[string]bool) {
 	if p == nil {
 		return
@@ -355,7 +365,7 @@ type form struct {
 	useT2    []string // same for t2 (joins)
 	where    string   // plain | notnot | flip | loose (joins: unqualified columns)
 	derived  bool     // FROM (SELECT * FROM t1) AS t1
-	joinCond string   // hash | flip | nl | unq           (joins)
+	joinCond string   // hash | flip | nl | nlh | unq     (joins)
 	derived2 bool     // JOIN (SELECT * FROM t2) AS t2    (joins)
 }
 
@@ -432,7 +442,7 @@ func renderQuery(q *query, c *conc, f form) string {
 		for _, on := range j.On {
 			l, r := "t1."+on[0], "t2."+on[1]
 			switch f.joinCond {
-			case "hash":
+			case "hash", "nlh":
 				conds = append(conds, l+" = "+r)
 			case "unq":
 				conds = append(conds, l+" = "+on[1])
@@ -440,7 +450,9 @@ func renderQuery(q *query, c *conc, f form) string {
 				conds = append(conds, r+" = "+l)
 			}
 		}
-		if f.joinCond == "nl" {
+		if f.joinCond == "nl" || f.joinCond == "nlh" {
+			// a conjunct over the outer row only: the condition is no pure equi-join any more (no hash join);
+			// written inner-column-first ("nl") the equality becomes a scan range of the inner table
 			conds = append(conds, "t1.id = t1.id")
 		}
 		sb.WriteString(" ON " + strings.Join(conds, " AND "))
